@@ -16,7 +16,7 @@
 (*  MODEL  - what HTTPConnectionPool.urlopen + Retry.from_int / increment / is_retry /         *)
 (*           is_exhausted / sleep do, one action per real step (Derive, Attempt, Classify,     *)
 (*           Increment, StatusRetry, Sleep, Recurse, Return, Raise) and one NAMED deviation    *)
-(*           (ClassifyD2) guarded by KnownDefects.  The Model decrements with urllib3's own    *)
+(*           (SleepUnclamped) guarded by KnownDefects.  The Model decrements with urllib3's own    *)
 (*           classification (`filed`) and EMITS the same events the harness records, so that   *)
 (*           Model |= Rules is checked by TLC with the very monitor that judges real traces.   *)
 (*                                                                                             *)
@@ -27,7 +27,7 @@ EXTENDS Integers, Sequences, FiniteSets, TLC
 CONSTANTS Cfgs,          \* set of configurations (records, fields below) explored from Init
           Outcomes,      \* environment alphabet: what may happen to one attempt
           MaxLen,        \* after MaxLen scripted outcomes the environment only answers 200
-          KnownDefects,  \* subset of {"D2"}: named deviations of the code from the design
+          KnownDefects,  \* subset of {"RetryAfterNotClamped"}: named deviations from the design
           TrackTrail     \* TRUE: keep the outcome trail / emitted events in the state (emission)
 
 NoneV  == -9             \* Python None
@@ -50,24 +50,34 @@ DefaultBackoffMax == 120000
 -----------------------------------------------------------------------------
 (* Environment alphabet: ground truth of one attempt.  stage = where the harness injects.      *)
 OC(o) ==
-  CASE o = "ConnRefused" -> [stage |-> "connect", kind |-> "refused", status |-> 0,   ra |-> -1]
-    [] o = "ConnTimeout" -> [stage |-> "connect", kind |-> "timeout", status |-> 0,   ra |-> -1]
-    [] o = "TunRefused"  -> [stage |-> "tunnel",  kind |-> "refused", status |-> 0,   ra |-> -1]
-    [] o = "SendErr"     -> [stage |-> "send",    kind |-> "unreach", status |-> 0,   ra |-> -1]
-    [] o = "ReadTimeout" -> [stage |-> "recv",    kind |-> "timeout", status |-> 0,   ra |-> -1]
-    [] o = "ReadReset"   -> [stage |-> "recv",    kind |-> "reset",   status |-> 0,   ra |-> -1]
-    [] o = "ReadEOF"     -> [stage |-> "recv",    kind |-> "eof",     status |-> 0,   ra |-> -1]
-    [] o = "ReadGarbage" -> [stage |-> "recv",    kind |-> "garbage", status |-> 0,   ra |-> -1]
-    [] o = "OK200"       -> [stage |-> "status",  kind |-> "resp",    status |-> 200, ra |-> -1]
-    [] o = "S500"        -> [stage |-> "status",  kind |-> "resp",    status |-> 500, ra |-> -1]
-    [] o = "S500RA"      -> [stage |-> "status",  kind |-> "resp",    status |-> 500, ra |-> 11000]
-    [] o = "S429RA"      -> [stage |-> "status",  kind |-> "resp",    status |-> 429, ra |-> 7000]
-    [] o = "S429RA0"     -> [stage |-> "status",  kind |-> "resp",    status |-> 429, ra |-> 0]
-    [] o = "S503RA"      -> [stage |-> "status",  kind |-> "resp",    status |-> 503, ra |-> 3000]
-    [] o = "S413RA"      -> [stage |-> "status",  kind |-> "resp",    status |-> 413, ra |-> 300000]
-    [] o = "S404RA"      -> [stage |-> "status",  kind |-> "resp",    status |-> 404, ra |-> 9000]
+  CASE o = "ConnRefused" -> [stage |-> "connect", kind |-> "refused", status |-> 0,   ra |-> -1, neg |-> 0]
+    [] o = "ConnTimeout" -> [stage |-> "connect", kind |-> "timeout", status |-> 0,   ra |-> -1, neg |-> 0]
+    [] o = "TunRefused"  -> [stage |-> "tunnel",  kind |-> "refused", status |-> 0,   ra |-> -1, neg |-> 0]
+    [] o = "SendErr"     -> [stage |-> "send",    kind |-> "unreach", status |-> 0,   ra |-> -1, neg |-> 0]
+    [] o = "ReadTimeout" -> [stage |-> "recv",    kind |-> "timeout", status |-> 0,   ra |-> -1, neg |-> 0]
+    [] o = "ReadReset"   -> [stage |-> "recv",    kind |-> "reset",   status |-> 0,   ra |-> -1, neg |-> 0]
+    [] o = "ReadEOF"     -> [stage |-> "recv",    kind |-> "eof",     status |-> 0,   ra |-> -1, neg |-> 0]
+    [] o = "ReadGarbage" -> [stage |-> "recv",    kind |-> "garbage", status |-> 0,   ra |-> -1, neg |-> 0]
+    [] o = "OK200"       -> [stage |-> "status",  kind |-> "resp",    status |-> 200, ra |-> -1, neg |-> 0]
+    [] o = "S500"        -> [stage |-> "status",  kind |-> "resp",    status |-> 500, ra |-> -1, neg |-> 0]
+    [] o = "S500RA"      -> [stage |-> "status",  kind |-> "resp",    status |-> 500, ra |-> 11000, neg |-> 0]
+    [] o = "S429RA"      -> [stage |-> "status",  kind |-> "resp",    status |-> 429, ra |-> 7000, neg |-> 0]
+    [] o = "S429RA0"     -> [stage |-> "status",  kind |-> "resp",    status |-> 429, ra |-> 0, neg |-> 0]
+    [] o = "S503RA"      -> [stage |-> "status",  kind |-> "resp",    status |-> 503, ra |-> 3000, neg |-> 0]
+    [] o = "S413RA"      -> [stage |-> "status",  kind |-> "resp",    status |-> 413, ra |-> 300000, neg |-> 0]
+    [] o = "S404RA"      -> [stage |-> "status",  kind |-> "resp",    status |-> 404, ra |-> 9000, neg |-> 0]
+    \* Retry-After given as an HTTP-date.  ra = what the server asks for (a date in the past asks for no
+    \* wait: 0); neg = date - now in ms when the date already passed (what an unclamped parse would yield)
+    [] o = "S429RAdSkew" -> [stage |-> "status",  kind |-> "resp",    status |-> 429, ra |-> 0, neg |-> -2000]
+    [] o = "S503RAdSkew" -> [stage |-> "status",  kind |-> "resp",    status |-> 503, ra |-> 0, neg |-> -2000]
+    [] o = "S413RAdPast" -> [stage |-> "status",  kind |-> "resp",    status |-> 413, ra |-> 0, neg |-> -86400000]
+    [] o = "S500RAdPast" -> [stage |-> "status",  kind |-> "resp",    status |-> 500, ra |-> 0, neg |-> -86400000]
+    [] o = "S429RAdNow"  -> [stage |-> "status",  kind |-> "resp",    status |-> 429, ra |-> 0, neg |-> 0]
+    [] o = "S429RAdFut"  -> [stage |-> "status",  kind |-> "resp",    status |-> 429, ra |-> 4000, neg |-> 0]
+    [] o = "S500RAdFut"  -> [stage |-> "status",  kind |-> "resp",    status |-> 500, ra |-> 4000, neg |-> 0]
 AllOutcomes == {"ConnRefused", "ConnTimeout", "TunRefused", "SendErr", "ReadTimeout", "ReadReset", "ReadEOF",
-                "ReadGarbage", "OK200", "S500", "S500RA", "S429RA", "S429RA0", "S503RA", "S413RA", "S404RA"}
+                "ReadGarbage", "OK200", "S500", "S500RA", "S429RA", "S429RA0", "S503RA", "S413RA", "S404RA",
+                "S429RAdSkew", "S503RAdSkew", "S413RAdPast", "S500RAdPast", "S429RAdNow", "S429RAdFut", "S500RAdFut"}
 
 (* ground-truth category of a stage *)
 TruthCat(stage) == CASE stage = "connect" -> "connect"
@@ -114,7 +124,6 @@ Retryable(p, s, ra) == Forcelisted(p, s) \/ (p.respect /\ ra >= 0 /\ s \in Retry
 Ob0 == [att |-> 0, msgs |-> 0, last |-> "none", lastStage |-> "", lastKind |-> "", lastStatus |-> 0, lastRA |-> -1,
         reached |-> FALSE, rc |-> 0, rr |-> 0, rs |-> 0, ro |-> 0,
         resent |-> 0, badretry |-> 0, badsleep |-> 0, ghost |-> 0,
-        eofRetry |-> FALSE,                    \* some retry followed EOF / reset at the response start
         ended |-> FALSE, end |-> E0]
 
 Charge(ob) == CASE ob.last = "connect" -> [ob EXCEPT !.rc = @ + 1]
@@ -127,9 +136,7 @@ ObsAtt(p, meth, ob) ==
     LET o1 == Charge(ob)
         o2 == IF ob.last = "status" /\ ~Retryable(p, ob.lastStatus, ob.lastRA)
               THEN [o1 EXCEPT !.badretry = @ + 1] ELSE o1
-        o3 == IF ob.lastStage = "recv" /\ ob.lastKind \in {"eof", "reset"}
-              THEN [o2 EXCEPT !.eofRetry = TRUE] ELSE o2
-    IN [o3 EXCEPT !.att = @ + 1, !.last = "pending", !.lastStage = "", !.lastKind = "", !.lastStatus = 0, !.lastRA = -1]
+    IN [o2 EXCEPT !.att = @ + 1, !.last = "pending", !.lastStage = "", !.lastKind = "", !.lastStatus = 0, !.lastRA = -1]
 Resend(p, meth, ob) == IF ob.reached /\ ~MethodAllowed(p, meth) THEN [ob EXCEPT !.resent = @ + 1] ELSE ob
 ObsMsg(p, meth, ob, e) == [Resend(p, e.method, ob) EXCEPT !.msgs = @ + 1]
 ObsFault(p, meth, ob, e) ==
@@ -263,21 +270,16 @@ AttemptFn(c, m, o) ==
                 Step([m EXCEPT !.pc = "status", !.cur = o], <<att, msg, EvReply("resp", oc.status, oc.ra)>>)
 
 (* Classify: the `except` clause of urlopen (lines 812-840) turns the low-level error into the   *)
-(* urllib3 exception whose class decides the counter.  D2 (deviation): behind a forwarding proxy *)
-(* http.client closes the connection on EOF/reset inside getresponse(), close() resets           *)
-(* has_connected_to_proxy, and the error is wrapped as ProxyError -> filed under `other`.        *)
-IsD2(c, m, defects) == /\ "D2" \in defects /\ c.route = "forward"
-                       /\ OC(m.cur).stage = "recv" /\ OC(m.cur).kind \in {"eof", "reset"}
+(* urllib3 exception whose class decides the counter.  (The former deviation D2 - EOF / reset     *)
+(* behind a forwarding proxy filed under `other` - was repaired in the code and deleted here.)    *)
 ClassifyFn(c, m, defects) ==
     LET oc == OC(m.cur)
         prox == c.route # "direct"
         filed == CASE oc.stage = "connect" -> "connect"      \* ProxyError is unwrapped by _is_connection_error
                    [] oc.stage = "tunnel"  -> "other"
-                   [] IsD2(c, m, defects)  -> "other"
                    [] OTHER -> "read"
         fam == CASE oc.stage = "connect" -> IF prox THEN "proxy" ELSE "conn"
                  [] oc.stage = "tunnel"  -> "proxy"
-                 [] IsD2(c, m, defects)  -> "proxy"
                  [] OTHER -> "read"
     IN Step([m EXCEPT !.pc = "increment", !.filed = filed, !.fam = fam], <<>>)
 
@@ -316,8 +318,13 @@ StatusRetryFn(c, m) ==
     ELSE Step([m EXCEPT !.pc = "sleep", !.cnt = c2, !.nh = @ + 1, !.resp = TRUE, !.keep = (c.ka = "keep")], <<>>)
 StatusFn(c, m) == IF IsRetry(c, m) THEN StatusRetryFn(c, m) ELSE ReturnNow(c, m)
 
-(* Retry.sleep: Retry-After first (when respected and > 0), else exponential backoff            *)
-SleepFn(c, m) ==
+(* Retry.sleep: Retry-After first (when respected and > 0), else exponential backoff.           *)
+(* parse_retry_after clamps at 0: a Retry-After date that already passed asks for no wait.       *)
+(* RetryAfterNotClamped (deviation, must be refuted): the clamp is lost, sleep_for_retry calls    *)
+(* time.sleep with a negative number, which raises ValueError out of urlopen.                     *)
+IsUnclamped(c, m, defects) == /\ "RetryAfterNotClamped" \in defects
+                              /\ m.resp /\ m.eff.respect /\ OC(m.cur).neg < 0
+SleepFn(c, m, defects) ==
     LET oc == OC(m.cur)
         ra == IF m.resp /\ m.eff.respect /\ oc.ra > 0 THEN oc.ra ELSE 0
         base == m.eff.factor * (2 ^ (IF m.nh >= 1 THEN m.nh - 1 ELSE 0))
@@ -326,9 +333,13 @@ SleepFn(c, m) ==
         es == IF ra > 0 THEN <<EvSleep(ra, ra)>>
               ELSE IF m.nh <= 1 \/ hi <= 0 THEN <<>>
               ELSE <<EvSleep(lo, hi)>>
-    IN Step([m EXCEPT !.pc = "recurse"], es)
+    IN IF IsUnclamped(c, m, defects)
+       THEN Step([m EXCEPT !.pc = "raise", !.res = [kind |-> "raw", status |-> 0, fam |-> "x:ValueError", rt |-> <<>>]],
+                 <<EvSleep(oc.neg, oc.neg)>>)
+       ELSE Step([m EXCEPT !.pc = "recurse"], es)
 RecurseFn(c, m) == Step([m EXCEPT !.pc = "attempt", !.cur = "", !.filed = "", !.fam = "", !.resp = FALSE], <<>>)
-RaiseFn(c, m)   == Step([m EXCEPT !.pc = "done"], <<EvEnd(m.res.kind, 0, m.res.fam, "yes", <<>>)>>)
+RaiseFn(c, m)   == Step([m EXCEPT !.pc = "done"],
+                        <<EvEnd(m.res.kind, 0, m.res.fam, IF m.res.kind = "raw" THEN "na" ELSE "yes", <<>>)>>)
 ReturnFn(c, m)  == Step([m EXCEPT !.pc = "done"], <<EvEnd("response", m.res.status, "", "na", m.res.rt)>>)
 
 (* every non-environment step, by pc (used by the fold in Retry_Trace) *)
@@ -337,7 +348,7 @@ StepFn(c, m, defects) ==
       [] m.pc = "classify"  -> ClassifyFn(c, m, defects)
       [] m.pc = "increment" -> IncrementFn(c, m)
       [] m.pc = "status"    -> StatusFn(c, m)
-      [] m.pc = "sleep"     -> SleepFn(c, m)
+      [] m.pc = "sleep"     -> SleepFn(c, m, defects)
       [] m.pc = "recurse"   -> RecurseFn(c, m)
       [] m.pc = "raise"     -> RaiseFn(c, m)
       [] m.pc = "return"    -> ReturnFn(c, m)
@@ -371,18 +382,18 @@ EnvAllows(o) == /\ (ob.att < MaxLen \/ o = TailOutcome(cfg))
 Derive     == m.pc = "derive"    /\ Do(DeriveFn(cfg, m))    /\ UNCHANGED trail
 Attempt(o) == /\ m.pc = "attempt" /\ EnvAllows(o) /\ Do(AttemptFn(cfg, m, o))
               /\ trail' = IF TrackTrail THEN Append(trail, o) ELSE trail
-Classify   == m.pc = "classify"  /\ ~IsD2(cfg, m, KnownDefects) /\ Do(ClassifyFn(cfg, m, {})) /\ UNCHANGED trail
-ClassifyD2 == m.pc = "classify"  /\ IsD2(cfg, m, KnownDefects)  /\ Do(ClassifyFn(cfg, m, KnownDefects)) /\ UNCHANGED trail
+Classify   == m.pc = "classify"  /\ Do(ClassifyFn(cfg, m, {})) /\ UNCHANGED trail
 Increment  == m.pc = "increment" /\ Do(IncrementFn(cfg, m)) /\ UNCHANGED trail
 StatusRetry == m.pc = "status" /\ IsRetry(cfg, m)  /\ Do(StatusRetryFn(cfg, m)) /\ UNCHANGED trail
 StatusPass  == m.pc = "status" /\ ~IsRetry(cfg, m) /\ Do(ReturnNow(cfg, m))     /\ UNCHANGED trail
-Sleep      == m.pc = "sleep"     /\ Do(SleepFn(cfg, m))     /\ UNCHANGED trail
+Sleep      == m.pc = "sleep" /\ ~IsUnclamped(cfg, m, KnownDefects) /\ Do(SleepFn(cfg, m, {})) /\ UNCHANGED trail
+SleepUnclamped == m.pc = "sleep" /\ IsUnclamped(cfg, m, KnownDefects) /\ Do(SleepFn(cfg, m, KnownDefects)) /\ UNCHANGED trail
 Recurse    == m.pc = "recurse"   /\ Do(RecurseFn(cfg, m))   /\ UNCHANGED trail
 Raise      == m.pc = "raise"     /\ Do(RaiseFn(cfg, m))     /\ UNCHANGED trail
 Return     == m.pc = "return"    /\ Do(ReturnFn(cfg, m))    /\ UNCHANGED trail
 
-Next == \/ Derive \/ (\E o \in Outcomes : Attempt(o)) \/ Classify \/ ClassifyD2 \/ Increment
-        \/ StatusRetry \/ StatusPass \/ Sleep \/ Recurse \/ Raise \/ Return
+Next == \/ Derive \/ (\E o \in Outcomes : Attempt(o)) \/ Classify \/ Increment
+        \/ StatusRetry \/ StatusPass \/ Sleep \/ SleepUnclamped \/ Recurse \/ Raise \/ Return
 Spec == Init /\ [][Next]_vars /\ WF_vars(Next)
 
 Done == m.pc = "done"
@@ -405,13 +416,8 @@ InvRules                == FirstFailing(P, cfg.method, ob) = "ok"
 InvDeriveAgrees         == m.pc # "derive" => m.eff = P
 (* wire bound of the statement: attempts <= 1 + total *)
 InvWireBound            == IsNum(P.total) => ob.att <= 1 + P.total
-(* with a deviation enabled the only Rules failures are those of the recorded signature:        *)
-(* some retry followed EOF / reset at the response start behind the forwarding proxy            *)
-InvOnlyKnownSignature ==
-    LET c == FirstFailing(P, cfg.method, ob) IN
-    c # "ok" => /\ c \in {"WithinBudgets", "NoResendAfterReach"}
-                /\ cfg.route = "forward"
-                /\ ob.eofRetry
+(* with the deviation RetryAfterNotClamped enabled the Model breaks exactly SleepsInRange first   *)
+InvOnlyUnclampedSignature == FirstFailing(P, cfg.method, ob) \in {"ok", "SleepsInRange"}
 (* termination: every configuration whose total is not None stops, whatever the environment does *)
 Bounded(c) == Policy(c).total # NoneV
 Terminates == Bounded(cfg) => <>Done
